@@ -38,7 +38,7 @@ def run(chk, tier, seed):
             inputs = hot + rest[:600]
         for k, inp in enumerate(inputs):
             str_cases.append(("str-%d" % k, d if k % 4 else ("ARM" if d == "6502" else "Windows"), 7, bytes(inp)))
-    cases = str_cases + list(bc.gen_tokens_sweep(tabs, quick)) + list(bc.gen_linenums(quick)) + list(bc.gen_listo(tabs, quick)) + list(bc.gen_strings(quick))
+    cases = str_cases + list(bc.gen_random_programs(tabs, rnd, quick)) + list(bc.gen_tokens_sweep(tabs, quick)) + list(bc.gen_linenums(quick)) + list(bc.gen_listo(tabs, quick)) + list(bc.gen_strings(quick))
     with common.Scratch("c03") as scratch:
         def do(ic):
             i, (label, d, listo, data) = ic
